@@ -28,8 +28,17 @@ PNode(n) ==
 PStreams == {[l |-> k[1], f |-> k[2],
               app |-> [i \in 1..Len(streams'[k].app) |-> [o |-> streams'[k].app[i].o, t |-> streams'[k].app[i].t, c |-> streams'[k].app[i].c]],
               ack |-> streams'[k].ack] : k \in {q \in StreamKeys : streams'[q] # NULL}}
+\* the (unguarded) property invariants evaluated in the state after the step: a replayed behaviour that
+\* the real nodes follow step by step up to a state where one of them is false shows the real code
+\* violating that property (attributed to the known findings whose trigger is in kf)
+InvNow == [AckedSurvive |-> AckedSurvive, AckedDurable |-> AckedDurable,
+           AppliedIsCommitted |-> AppliedIsCommitted, StateMachineSafety |-> StateMachineSafety,
+           CommittedUnique |-> CommittedUnique, AckSound |-> AckSound, HeadTruthful |-> HeadTruthful,
+           FencedTerm |-> FencedTerm, OneLeaderPerTerm |-> OneLeaderPerTerm,
+           NoTermAboveCoordinator |-> NoTermAboveCoordinator, DbIsLogPrefix |-> DbIsLogPrefix,
+           DurableNotAheadOfLog |-> DurableNotAheadOfLog, CommitLeHead |-> CommitLeHead]
 Proj == [nodes |-> [n \in Nodes |-> PNode(n)], streams |-> PStreams,
-         acked |-> {[off |-> w.off, t |-> w.t] : w \in acked'}, kf |-> kf']
+         acked |-> {[off |-> w.off, t |-> w.t] : w \in acked'}, kf |-> kf', inv |-> InvNow']
 
 Log(r) == hist' = Append(hist, r @@ [exp |-> Proj])
 
@@ -56,7 +65,7 @@ MCNext ==
     \/ \E n \in Nodes, R \in SUBSET Nodes :
           /\ CoBecomeLeader(n, R)
           /\ Log([a |-> "BecomeLeader", n |-> n, t |-> meta.term, rf |-> Cardinality(meta.ens),
-                  fm |-> [m \in (R \cap meta.ens) \ {n} |-> RespHead(m)],
+                  fm |-> [m \in (R \cap meta.ens) \ {n} |-> RespHead(m)], fs |-> R,
                   sent |-> BecomeLeaderOutcome(n, meta.term) = "ok" /\ ~Busy(n) /\ NoParkedSync(n)])
     \/ \E n \in Nodes : CoRetryNewTerm(n) /\ Log([a |-> "CoRetryNewTerm", n |-> n, t |-> meta.term])
     \/ \E f \in Nodes :
@@ -83,5 +92,75 @@ SimNext == \/ (MCNext /\ (Disruptive => P(12)))
 SimSpec == MCInit /\ [][SimNext]_mcvars
 
 ExportRuns == (Export = "runs" /\ Len(hist) = MaxDepth) => PrintT(<<"RUN", ToJson(hist)>>)
+
+----------------------------------------------------------------------------
+\* Script mode: follow a given action sequence (a witness schedule) through the specification to obtain
+\* the expectations of the *unmutated* specification for it.  Constants are strings in this mode.
+Script == ndJsonDeserialize("script.ndjson")
+ArgKeys == {"n", "l", "f", "t", "v", "from", "to"}
+Match(r, sc) == /\ r.a = sc.a
+                /\ \A k \in (DOMAIN sc \cap DOMAIN r) \cap ArgKeys : r[k] = sc[k]
+                /\ ("fs" \in DOMAIN sc /\ "fs" \in DOMAIN r) => r.fs = {sc.fs[i] : i \in 1..Len(sc.fs)}
+ScriptNext == /\ Len(hist) < Len(Script)
+              /\ MCNext
+              /\ Match(hist'[Len(hist')], Script[Len(hist) + 1])
+ScriptSpec == MCInit /\ [][ScriptNext]_mcvars
+ExportEvery == (Len(hist) > 0) => PrintT(<<"RUN", ToJson(hist)>>)
+
+----------------------------------------------------------------------------
+\* Targets: branch conditions of the specification whose shortest witnesses (TLC counterexamples of
+\* "the target is never reached") are stored as witness schedules under /verif/replays/witness.
+HLast == hist[Len(hist)]
+HPrev == hist[Len(hist) - 1]
+WalLen(h, n) == h.exp.nodes[n].first + Len(h.exp.nodes[n].wal)
+Attached == Len(hist) >= 2 /\ HLast.a \in {"BecomeLeader", "AddFollower"} /\ HLast.sent
+LeaderOf(h) == IF h.a = "BecomeLeader" THEN h.n ELSE h.l
+\* a follower shorter than the leader is truncated (divergent tail of an older term)
+TgtTruncShorter == Attached /\ \E f \in Nodes :
+                      /\ Len(HLast.exp.nodes[f].wal) < Len(HPrev.exp.nodes[f].wal)
+                      /\ Len(HPrev.exp.nodes[f].wal) < Len(HLast.exp.nodes[LeaderOf(HLast)].wal)
+                      /\ Len(HLast.exp.nodes[f].wal) > 0
+\* a follower longer than the leader is truncated
+TgtTruncLonger == Attached /\ \E f \in Nodes :
+                      /\ Len(HLast.exp.nodes[f].wal) < Len(HPrev.exp.nodes[f].wal)
+                      /\ Len(HPrev.exp.nodes[f].wal) > Len(HLast.exp.nodes[LeaderOf(HLast)].wal)
+\* a duplicate Append is acknowledged
+TgtDupAck == Len(hist) >= 2 /\ HLast.a = "Append" /\ \E s \in HLast.exp.streams : \E p \in HPrev.exp.streams :
+                      s.l = p.l /\ s.f = p.f /\ Len(s.ack) > Len(p.ack)
+\* an Append of another term is refused (the stream is closed by the follower)
+TgtTermReject == Len(hist) >= 2 /\ HLast.a = "Append" /\ Cardinality(HLast.exp.streams) < Cardinality(HPrev.exp.streams)
+\* NewTerm answered while an appended entry is not synced yet
+TgtHeadLag == "headLag" \in kf
+TgtFig8 == "fig8" \in kf
+TgtDupAckUnsynced == "dupAck" \in kf
+\* a crash loses an unsynced tail and the node is elected again later
+TgtCrashLoss == Len(hist) >= 2 /\ HLast.a = "Crash" /\ Len(wal[HLast.n]) < Len(HPrev.exp.nodes[HLast.n].wal)
+\* a late NewTerm of a superseded election is refused
+TgtLateNewTerm == Len(hist) >= 1 /\ HLast.a = "NewTerm" /\ ~HLast.ok
+\* a third term leader serves after two elections with writes in both earlier terms
+TgtThreeTerms == \E n \in Nodes : status[n] = "LEADER" /\ term[n] = 3 /\ Len(applied[n]) >= 2
+                                   /\ \E i, j \in 1..Len(wal[n]) : wal[n][i].t = 1 /\ wal[n][j].t = 2
+\* a write is acknowledged with RF = 3 after acks of both followers were delivered
+TgtTwoFollowerAcks == \E n \in Nodes : lead[n] # NULL /\ acked # {} /\ \E o \in 1..MaxWrites : Cardinality(lead[n].acks[o]) = 2
+\* a snapshot was installed and the node later became leader
+TgtSnapshotLeader == \E n \in Nodes : phantom[n] > 0 /\ status[n] = "LEADER"
+\* BecomeLeader timed out with cursors left behind, then the node was elected again
+TgtTimeoutThenLeader == \E i \in 1..Len(hist) : hist[i].a = "BecomeLeaderTimeout" /\ status[hist[i].n] = "LEADER" /\ term[hist[i].n] > hist[i].exp.nodes[hist[i].n].term
+
+NotTgtTruncShorter == ~TgtTruncShorter
+NotTgtTruncLonger == ~TgtTruncLonger
+NotTgtDupAck == ~TgtDupAck
+NotTgtTermReject == ~TgtTermReject
+NotTgtHeadLag == ~TgtHeadLag
+NotTgtFig8 == ~TgtFig8
+NotTgtDupAckUnsynced == ~TgtDupAckUnsynced
+NotTgtCrashLoss == ~TgtCrashLoss
+NotTgtLateNewTerm == ~TgtLateNewTerm
+NotTgtThreeTerms == ~TgtThreeTerms
+NotTgtTwoFollowerAcks == ~TgtTwoFollowerAcks
+NotTgtSnapshotLeader == ~TgtSnapshotLeader
+NotTgtTimeoutThenLeader == ~TgtTimeoutThenLeader
+View == vars
+JsonAlias == [h |-> ToJson(hist)]
 StopAtDepth == Len(hist) <= MaxDepth
 =============================================================================
